@@ -169,7 +169,19 @@ fn real_main() {
         Some("trace-names") => {
             let inputs = cases::resolve_inputs(&get("inputs", "gen:100"), seed);
             let cfg = wv::run::Cfg::default();
-            let lines: Vec<_> = inputs.par_iter().flat_map(|i| vec![cases::names_case(i, &cfg, 0), cases::names_case(i, &cfg, 1)]).collect();
+            // every third input also with synthetic names for anonymous items switched on (names the input gives must win)
+            let synth = wv::run::Cfg { synth: true, ..Default::default() };
+            let lines: Vec<_> = inputs
+                .par_iter()
+                .enumerate()
+                .flat_map(|(k, i)| {
+                    let mut v = vec![cases::names_case(i, &cfg, 0), cases::names_case(i, &cfg, 1)];
+                    if k % 3 == 0 {
+                        v.push(cases::names_case(i, &synth, (k as u32 / 3) % 2));
+                    }
+                    v
+                })
+                .collect();
             cases::write_lines(&out, &lines);
             println!("cases {}", lines.len());
         }
